@@ -395,4 +395,24 @@ theorem stale_readd_unbacked :
   · rw [← backedB_iff]; decide
   · rw [← backedB_iff, Bool.not_eq_true]; decide
 
+/-- **Configuration wiring (regenerated fact).**  How configuration reaches the prober component: poll interval, concurrency, probe timeout and the port offsets of the port prober: every field of every
+configuration literal in `cmd/swat4master` that concerns this property, with the source text of the value it is given
+(`verifharness facts`, go/ast, on every run).  A command-line value wired to another field, a unit conversion or a
+`max`/`min` slipped into one of these literals changes the generated list and breaks this theorem; the harness itself
+drives these components through their real fx modules (DESIGN 10.8), this pins what the modules are given. -/
+def configRows : List (String × String × String × String × String) :=
+    [("components/prober/prober.go", "*command.Run", "Config", "PollInterval", "globals.ProbePollSchedule"),
+     ("components/prober/prober.go", "*command.Run", "Config", "Concurrency", "globals.ProbeConcurrency"),
+     ("components/prober/prober.go", "*command.Run", "Config", "ProbeTimeout", "globals.ProbeTimeout"),
+     ("components/prober/prober.go", "*command.Run", "Config", "PortOffsets", "globals.DiscoveryRevivalPorts"),
+     ("components/prober/prober.go", "provideRunnerOpts", "proberunner.RunnerOpts", "PollInterval", "cfg.PollInterval"),
+     ("components/prober/prober.go", "provideRunnerOpts", "proberunner.RunnerOpts", "Concurrency", "cfg.Concurrency"),
+     ("components/prober/prober.go", "provideRunnerOpts", "proberunner.RunnerOpts", "ProbeTimeout", "cfg.ProbeTimeout"),
+     ("components/prober/prober.go", "providePortProberOpts", "portprober.Opts", "Offsets", "cfg.PortOffsets")]
+
+theorem facts_config_wiring :
+    (Facts.configWiring.filter fun r => configRows.contains r) = configRows ∧
+    (Facts.configWiring.filter fun r => configRows.any fun c => c.1 == r.1 && c.2.1 == r.2.1 && c.2.2.1 == r.2.2.1 && c.2.2.2.1 == r.2.2.2.1) = configRows := by
+  decide
+
 end Swat4.C16
